@@ -419,7 +419,8 @@ def read_pil(text):
         elif cmd == "kinetic":
             m = re.match(r"kinetic\s+\[(\S+) /M/s < k < (\S+) /M/s\]\s+(.*?)\s*->\s*(.*)$", line)
             if not m: raise ValueError(line)
-            out.append(["kinetic", float(m.group(1)), float(m.group(2)), [s.strip() for s in m.group(3).split("+")], [s.strip() for s in m.group(4).split("+")]])
+            side = lambda t: [] if not t.strip() else [s.strip() for s in t.split("+")]     # a reaction may have no reactants / products
+            out.append(["kinetic", float(m.group(1)), float(m.group(2)), side(m.group(3)), side(m.group(4))])
         elif cmd == "equal":
             out.append(["equal", items(line[len("equal"):])])
         else:
